@@ -12,6 +12,8 @@ import (
 	"time"
 )
 
+var caseFilter *string
+
 type KnownFinding struct {
 	ID       string            `json:"id"`
 	Property string            `json:"property"`
@@ -52,6 +54,7 @@ func main() {
 		tier := fs.String("tier", "quick", "quick|thorough")
 		jobs := fs.Int("jobs", 16, "parallel workers")
 		only := fs.String("only", "", "run only harnesses whose name contains this")
+		caseFilter = fs.String("case", "", "run only instances whose case string contains this")
 		verbose := fs.Bool("v", false, "verbose")
 		noEvidence := fs.Bool("no-evidence", false, "do not write the evidence file")
 		prop := os.Args[2]
@@ -184,6 +187,9 @@ func runCheck(prop, tier string, jobs int, only string, verbose, writeEvidence b
 	var sel []*Instance
 	for _, in := range insts {
 		if only != "" && !strings.Contains(in.Harness, only) {
+			continue
+		}
+		if caseFilter != nil && *caseFilter != "" && !strings.Contains(","+caseString(in.Case)+",", ","+*caseFilter+",") {
 			continue
 		}
 		in.Known = active
